@@ -572,6 +572,15 @@ class BatchResponse(AbstractResponse):
         self._add_ids(*(resp.id for resp in responses))
         self._responses.extend(responses)
 
+    def reorder(self, ids: Iterable[JsonRpcRequestId]) -> None:
+        """
+        Rearranges the responses according to the identifiers order.
+        Responses with other identifiers are placed at the end keeping their relative order.
+        """
+
+        positions = {id: idx for idx, id in enumerate(ids)}
+        self._responses.sort(key=lambda response: positions.get(response.id, len(positions)))
+
     def to_json(self) -> Json:
         """
         Serializes the batch response to json data.
